@@ -66,6 +66,8 @@ func (p *FinalLimitPlan) Batch(ctx *ExecuteCtx) ([][]Column, error) {
 		}
 		if nrows <= restSkips {
 			p.skips += nrows
+			// All of these rows are skipped, none of them is left to return
+			rows = nil
 		} else {
 			p.skips += restSkips
 			rows = rows[restSkips:]
@@ -204,6 +206,8 @@ func (p *LimitPlan) Batch(ctx *ExecuteCtx) ([]KVPair, error) {
 		}
 		if nrows <= restSkips {
 			p.skips += nrows
+			// All of these rows are skipped, none of them is left to return
+			rows = nil
 		} else {
 			p.skips += restSkips
 			rows = rows[restSkips:]
